@@ -208,7 +208,7 @@ func (w *c11world) wspPlay(token, path string) string {
 	if token != "" {
 		q = "?token=" + token
 	}
-	d := websocket.Dialer{Subprotocols: []string{"control"}, HandshakeTimeout: 5 * time.Second}
+	d := websocket.Dialer{Subprotocols: []string{"control"}, HandshakeTimeout: 60 * time.Second}
 	ctl, resp, err := d.Dial("ws://"+w.srv.Addr+"/streams"+path+q, kit.ExtraHTTPHeader)
 	if out, ok := wsStatus(resp, err); !ok {
 		return out
@@ -247,7 +247,7 @@ func (w *c11world) wsFlv(token, path string) string {
 	if token != "" {
 		q = "?token=" + token
 	}
-	d := websocket.Dialer{HandshakeTimeout: 5 * time.Second}
+	d := websocket.Dialer{HandshakeTimeout: 60 * time.Second}
 	ws, resp, err := d.Dial("ws://"+w.srv.Addr+"/streams"+path+".flv"+q, kit.ExtraHTTPHeader)
 	if out, ok := wsStatus(resp, err); !ok {
 		return out
@@ -259,6 +259,39 @@ func (w *c11world) wsFlv(token, path string) string {
 		return "error:granted-but-no-flv"
 	}
 	return "granted"
+}
+
+// hlsSegmentOddCase asks for a listed segment with the extension spelled in another case (.TS, .Ts). Whatever the
+// server makes of such a URL, it must not deliver the segment to somebody without pull rights on the stream.
+func (w *c11world) hlsSegmentOddCase(token, path string) string {
+	at := w.tokens["admin"][0]
+	_, b, err := w.srv.HTTP("GET", "/streams"+path+".m3u8?token="+at, "")
+	if err != nil {
+		return "error:http"
+	}
+	m := tsURI.FindStringSubmatch(string(b))
+	if m == nil {
+		return "error:no-segment-uri"
+	}
+	out := "notfound"
+	for _, ext := range []string{".TS", ".Ts", ".tS"} {
+		uri := strings.TrimSuffix(m[1], ".ts") + ext
+		q := ""
+		if token != "" {
+			q = "?token=" + token
+		}
+		code, body, err := w.srv.HTTP("GET", uri+q, "")
+		if err != nil {
+			continue
+		}
+		if code == 200 && len(body) >= 188 && body[0] == 0x47 {
+			return "granted"
+		}
+		if c := classifyHTTP(code); c == "refused" {
+			out = "refused"
+		}
+	}
+	return out
 }
 
 var tsURI = regexp.MustCompile(`(?m)^(/streams/\S+\.ts)(\?token=\S+)?$`)
@@ -327,6 +360,14 @@ func (w *c11world) login(name string) bool {
 		return false
 	}
 	a, r, code := w.srv.Login(name, u.pass)
+	for try := 0; code == 0 && try < 3; try++ { // no HTTP status at all (timeout / connection error): not an answer, ask again
+		time.Sleep(200 * time.Millisecond)
+		a, r, code = w.srv.Login(name, u.pass)
+	}
+	if code == 0 {
+		w.c.Inconclusive("login could not be evaluated: no HTTP response")
+		return false
+	}
 	if code != 200 || a == "" {
 		w.c.Violation("C11:login-refused-with-valid-password", map[string]interface{}{"user": name, "code": code, "history": w.hist})
 		return false
@@ -515,6 +556,13 @@ func runC11(c *kit.Ctx) {
 							w.judge("hls-m3u8", name, "pull", path, m, want, tokLbl)
 							if ts != "" {
 								w.judge("hls-ts", name, "pull", path, ts, want, tokLbl)
+								if !want { // an oddly spelled extension must not open what the plain one refuses
+									if o := w.hlsSegmentOddCase(tok, path); o == "granted" {
+										w.judge("hls-ts-odd-case-extension", name, "pull", path, o, want, tokLbl)
+									} else {
+										w.c.SetAdd("outcomes", "hls-ts-odd-case-extension:"+o)
+									}
+								}
 							}
 						case 7:
 							// publish through a WebSocket RTSP session: needs pull on the connect path AND push on the publish path
@@ -544,6 +592,28 @@ func runC11(c *kit.Ctx) {
 		if hi < 2 {
 			c.Sample(map[string]interface{}{"history": w.hist})
 		}
+	}
+
+	// ---------- directed: a right that covers "<stream>/<anything>" but not the stream itself, against the segment URLs
+	// of that stream in every spelling of the extension
+	if ready {
+		kid := "kid" + sh
+		w.hist = nil
+		w.save(kid, c11user{pass: "pwkid", pull: pD + "/+"}, true)
+		if w.login(kid) {
+			tok := w.tokens[strings.ToLower(kid)][0]
+			m, ts := w.hls(tok, pD, true)
+			w.judge("hls-m3u8", kid, "pull", pD, m, false, "token:right-on-children-only")
+			if ts != "" {
+				w.judge("hls-ts", kid, "pull", pD, ts, false, "token:right-on-children-only")
+			}
+			o := w.hlsSegmentOddCase(tok, pD)
+			w.c.SetAdd("outcomes", "hls-ts-odd-case-extension:"+o)
+			if o == "granted" {
+				w.judge("hls-ts-odd-case-extension", kid, "pull", pD, o, false, "token:right-on-children-only")
+			}
+		}
+		w.del(kid)
 	}
 
 	// ---------- attacker strategy: derive the process counter from a disclosed session id, guess tokens
@@ -681,7 +751,7 @@ func c11WspCrossJoin(c *kit.Ctx, w *c11world, name, pathA, pathC string) {
 	atok := w.tokens["admin"][0]
 	utok := w.tokens[strings.ToLower(name)][0]
 	// victim (administrator) control channel on pathC
-	d := websocket.Dialer{Subprotocols: []string{"control"}, HandshakeTimeout: 5 * time.Second}
+	d := websocket.Dialer{Subprotocols: []string{"control"}, HandshakeTimeout: 60 * time.Second}
 	ctl, _, err := d.Dial("ws://"+w.srv.Addr+"/streams"+pathC+"?token="+atok, nil)
 	if err != nil {
 		c.Inconclusive("wsp control dial failed")
@@ -700,7 +770,7 @@ func c11WspCrossJoin(c *kit.Ctx, w *c11world, name, pathA, pathC string) {
 		}
 	}
 	// attacker's data channel: allowed to connect on pathA, joins the victim's channel id
-	d2 := websocket.Dialer{Subprotocols: []string{"data"}, HandshakeTimeout: 5 * time.Second}
+	d2 := websocket.Dialer{Subprotocols: []string{"data"}, HandshakeTimeout: 60 * time.Second}
 	data, resp, err := d2.Dial("ws://"+w.srv.Addr+"/streams"+pathA+"?token="+utok, nil)
 	if err != nil {
 		st, _ := wsStatus(resp, err)
